@@ -311,16 +311,19 @@ end Builtins
 def NumSem (rec : Disp) : Prop :=
   (∀ x y, rec "<" [.num x, .num y] = .ok (b2v (cmpLt x y))) ∧
   (∀ x y, rec "==" [.num x, .num y] = .ok (b2v (cmpEq x y))) ∧
-  (∀ x, rec "int" [.num x] = liftN (Elementary.applyNum .toInt x))
+  (∀ x, rec "int" [.num x] = liftN (Elementary.applyNum .toInt x)) ∧
+  (∀ x y, rec "<=" [.num x, .num y] = .ok (b2v (cmpLe x y)))
 
 theorem numSem_dispatchV (n : Nat) : NumSem (fun nm as => dispatchV (n + 1) nm as []) := by
-  refine ⟨fun x y => ?_, fun x y => ?_, fun x => ?_⟩
+  refine ⟨fun x y => ?_, fun x y => ?_, fun x => ?_, fun x y => ?_⟩
   · have t := (num_table2 _ (numClass_mem x) _ (numClass_mem y)).2.2.2.2.2.2.1
     exact dispatch_cmp n "<" _ x y t
   · have t := (num_table2 _ (numClass_mem x) _ (numClass_mem y)).2.2.2.2.2.2.2.2.1
     exact dispatch_cmp n "==" _ x y t
   · have t := (num_table1 _ (numClass_mem x)).2.2.2.2.2.2.1
     exact dispatch_fn1 n "int" _ .toInt x t
+  · have t := (num_table2 _ (numClass_mem x) _ (numClass_mem y)).2.2.2.2.2.2.2.1
+    exact dispatch_cmp n "<=" _ x y t
 
 section Sem
 variable {rec : Disp}
@@ -337,14 +340,99 @@ theorem ka_sqrt_agree (h : NumSem rec) (x : Num) :
   simp only [ka_sqrt, PyRt.pyInt, h.1, ok_bind, truthy_b2v, bNum1, Elementary.body, Elementary.kaSqrt, mathSqrt, pyRaise_def]
   cases cmpLt x (.int 0) <;> rfl
 
+/-- `quantity_function` over a translated one-argument function that agrees with the model's `Elementary.body fn` -/
+theorem quantity_function_agree (f : Disp → Val → R Val) (fn : Elementary.Fn) (m : Num) (d : List Int)
+    (hf : f rec (.num m) = bNum1 (Elementary.body fn) rec [.num m]) :
+    register_numeric_function__quantity_function f rec (.qty m d) = bQtyFn fn rec [.qty m d] := by
+  simp only [register_numeric_function__quantity_function, hf, bNum1, bQtyFn, pyAttr, pyQv, ok_bind, map_def, bind_assoc, mkQuantity]
+
 theorem quantity_function_sqrt_agree (h : NumSem rec) (m : Num) (d : List Int) :
-    register_numeric_function__quantity_function ka_sqrt rec (.qty m d) = bQtyFn .sqrt rec [.qty m d] := by
-  simp only [register_numeric_function__quantity_function, ka_sqrt_agree h, bNum1, bQtyFn, pyAttr, pyQv, ok_bind, map_def, bind_assoc,
-    mkQuantity]
+    register_numeric_function__quantity_function ka_sqrt rec (.qty m d) = bQtyFn .sqrt rec [.qty m d] :=
+  quantity_function_agree ka_sqrt .sqrt m d (ka_sqrt_agree h m)
+
+/-- `math.log`'s helper never fails with a host exception other than the `ValueError` it is documented to raise -/
+theorem toFloat_error {x : Num} {e : Err} (h : x.toFloat = .error e) : e = .overflow := by
+  cases x <;> simp only [Num.toFloat] at h <;> first | (split at h <;> cases h; rfl) | cases h
+
+theorem pyLog_error {x : Num} {e : Err} (h : Elementary.pyLog x = .error e) : e = .runtime ∨ e = .overflow := by
+  cases x with
+  | int n =>
+    simp only [Elementary.pyLog] at h
+    split at h <;> cases h
+  | frac q =>
+    simp only [Elementary.pyLog] at h
+    cases ht : (Num.frac q).toFloat with
+    | error e' =>
+      simp only [ht, bind, Except.bind] at h
+      cases h
+      exact Or.inr (toFloat_error ht)
+    | ok f =>
+      simp only [ht, bind, Except.bind] at h
+      split at h <;> cases h
+      exact Or.inl rfl
+  | flt f =>
+    simp only [Elementary.pyLog, Num.toFloat, bind, Except.bind] at h
+    split at h <;> cases h
+    exact Or.inl rfl
+
+/-- `try: math.log(x, base) except ValueError: raise KaRuntimeError` behind `ka_log`'s guards is the model's
+    `log x / log base` — unless `log(float(base))` is `0.0`, where CPython raises `ZeroDivisionError` -/
+theorem tryLog_agree (x base : Num) (hx : cmpLe x (.int 0) = false) (hb : cmpLe base (.int 0) = false)
+    (hz : ∀ lb, Elementary.pyLog base = .ok lb → (lb == 0) = false) :
+    pyTry (mathLog2 (.num x) (.num base)) "ValueError" (pyRaise .runtime)
+      = Except.map Val.num (liftE (do let lx ← Elementary.pyLog x; let lb ← Elementary.pyLog base; fin (lx / lb))) := by
+  simp only [mathLog2, mathLogArg, hx, hb, Bool.false_eq_true, if_false]
+  cases hlx : Elementary.pyLog x with
+  | error e =>
+    rcases pyLog_error hlx with rfl | rfl <;> rfl
+  | ok lx =>
+    cases hlb : Elementary.pyLog base with
+    | error e =>
+      rcases pyLog_error hlb with rfl | rfl <;> rfl
+    | ok lb =>
+      have := hz lb hlb
+      simp only [bind, Except.bind, this, Bool.false_eq_true, if_false]
+      cases hf : fin (lx / lb) with
+      | error e =>
+        have : e = .overflow := by
+          simp only [fin] at hf
+          split at hf <;> cases hf
+          rfl
+        subst this
+        rfl
+      | ok v => rfl
+
+theorem ka_log_agree (h : NumSem rec) (x base : Num) (hz : ∀ lb, Elementary.pyLog base = .ok lb → (lb == 0) = false) :
+    ka_log rec (.num x) (.num base) = bNum2 Elementary.kaLog rec [.num x, .num base] := by
+  simp only [ka_log, PyRt.pyInt, h.2.2.2, h.2.1, ok_bind, truthy_b2v, bNum2, Elementary.kaLog, pyRaise_def]
+  cases hx : cmpLe x (.int 0) with
+  | true => rfl
+  | false =>
+    cases hb : cmpLe base (.int 0) with
+    | true => rfl
+    | false =>
+      cases h1 : cmpEq base (.int 1) with
+      | true => rfl
+      | false =>
+        have := tryLog_agree x base hx hb hz
+        simp only [pyRaise_def] at this
+        simp only [Bool.false_eq_true, if_false, pure_def, ok_bind, truthy_b2v, h1, Bool.or_false, this]
+
+theorem ka_ln_agree (h : NumSem rec) (x : Num) (hz : ∀ lb, Elementary.pyLog LogBase.e.num = .ok lb → (lb == 0) = false) :
+    ka_ln rec (.num x) = bNum1 (Elementary.body .ln) rec [.num x] := by
+  simpa only [ka_ln, mathE, bNum1, bNum2, Elementary.body, LogBase.num] using ka_log_agree h x (.flt Elementary.eFloat) hz
+
+theorem ka_log10_agree (h : NumSem rec) (x : Num) (hz : ∀ lb, Elementary.pyLog LogBase.ten.num = .ok lb → (lb == 0) = false) :
+    ka_log10 rec (.num x) = bNum1 (Elementary.body .log10) rec [.num x] := by
+  simpa only [ka_log10, PyRt.pyInt, bNum1, bNum2, Elementary.body, LogBase.num] using ka_log_agree h x (.int 10) hz
+
+theorem ka_log2_agree (h : NumSem rec) (x : Num) (hz : ∀ lb, Elementary.pyLog LogBase.two.num = .ok lb → (lb == 0) = false) :
+    ka_log2 rec (.num x) = bNum1 (Elementary.body .log2) rec [.num x] := by
+  simpa only [ka_log2, PyRt.pyInt, bNum1, bNum2, Elementary.body, LogBase.num] using ka_log_agree h x (.int 2) hz
 
 /-- `is_fractional(y)` through a dispatcher that computes `int` and `==` as Ka does is `Num.isFractional` -/
 theorem is_fractional_sem (h : NumSem rec) (y : Num) : is_fractional rec (.num y) = liftE (Num.isFractional y) := by
-  simp only [is_fractional, h.2.2, Elementary.applyNum, Elementary.body, unop, Num.isFractional]
+  simp only [is_fractional, h.2.2.1, Elementary.applyNum, Elementary.body, unop, Num.isFractional]
   cases hy : Num.pyInt y with
   | error e => rfl
   | ok t =>
